@@ -1,7 +1,7 @@
 (* PV.C10.Properties — the property theorems of C10 and nothing else. *)
 From Coq Require Import QArith List Bool PArith Arith.
 From PV Require Import Base.PyData Base.Expr Base.Stmts C10.Model C10.Proofs C10.ProofsRsd C10.ProofsSubs.
-From PV Require Import C10.ModelUnused C10.ProofsUnused C10.ProofsUnused2 C10.ProofsOde C10.ProofsReassign C10.ProofsRename.
+From PV Require Import C10.ModelUnused C10.ProofsUnused C10.ProofsUnused2 C10.ProofsCov C10.ProofsOde C10.ProofsReassign C10.ProofsRename.
 
 (* Expanding an expression to its full definition evaluates to the same value as executing the
    statements in order: for every statement list without a compartmental system (on which the
@@ -232,3 +232,14 @@ Theorem subs_rename_assigned_symbol :
     forall x, x <> a -> x <> z ->
       exec fi ode (upd r z (r a)) (subs_stmts ((a, Sym z) :: nil) l) x = exec fi ode r l x.
 Proof. exact subs_rename_lemma. Qed.
+
+(* The call does not change the distribution of what remains (the unjoin inside
+   _get_unused_parameters_and_rvs): in a well-formed collection, any two random variables n, m (n = m
+   included) that are in one distribution d' after the call were in one distribution d before it and have the
+   covariance entry — looked up by NAME — they had there; for a variable that became a single normal
+   distribution this is its former variance.  Every statement list, every collection, every block size. *)
+Theorem kept_covariances_unchanged :
+  forall (l : list stmt) (rvs : list dist) (d' : dist) (n m : id),
+    wf_rvs rvs = true -> In d' (new_rvs l rvs) -> In n (dist_names d') -> In m (dist_names d') ->
+    exists d, In d rvs /\ In n (dist_names d) /\ In m (dist_names d) /\ dist_cov d' n m = dist_cov d n m.
+Proof. exact kept_covariances_unchanged_lemma. Qed.
